@@ -177,5 +177,13 @@ theorem lex_fuel_any (m : Conf.Mode) (inp : Bytes) (k : Nat) :
     rw [← lex_fuel_adequate m (inp.length + 1 + k) inp [] false (by omega)]
     exact ih
 
+/-! ### non-vacuity: a reader that accepts (exit 0, output) and three ways of rejecting (exit 1, nothing) -/
+private def B (s : String) : Bytes := s.toList.map (fun c => UInt8.ofNat c.toNat)
+private def exFile : Bytes := B "step,name,exit,duration,delta,log,user,time,skip\n1,env,0,1,0,env.log,root,1,0\n"
+example : StepFile.readCmd exFile (.idx 1) (B "${name}:${exit}\n") = (0, B "env:0\n") := by decide +kernel
+example : StepFile.readCmd exFile (.idx 1) (B "${nope}\n") = (1, []) := by decide +kernel
+example : StepFile.readCmd exFile (.idx 2) (B "${name}\n") = (1, []) := by decide +kernel
+example : StepFile.readCmd (B "step,name\n\x00garbage") (.idx 1) (B "${name}\n") = (1, []) := by decide +kernel
+
 end C12
 end Robsd
